@@ -846,10 +846,17 @@ impl World {
                     };
                     let cft = p.create_contentfilteredtopic("F_filtered", &t, expr.clone(), params.clone()).await?;
                     let filtered = self.parts[part].subscriber.create_datareader::<FilterData>(&cft, QosKind::Specific(qos.clone()), NO_LISTENER, NO_STATUS).await?;
-                    let control = self.parts[part].subscriber.create_datareader::<FilterData>(&t, QosKind::Specific(qos), NO_LISTENER, NO_STATUS).await?;
-                    Ok(vec![filtered, control])
+                    let control = self.parts[part].subscriber.create_datareader::<FilterData>(&t, QosKind::Specific(qos.clone()), NO_LISTENER, NO_STATUS).await?;
+                    let mut v = vec![filtered, control];
+                    // optionally a second filtered reader of the SAME subscriber with the same expression and other parameters
+                    if let Some(p2) = st["params2"].as_array() {
+                        let params2: Vec<String> = p2.iter().map(|x| x.as_str().unwrap().to_string()).collect();
+                        let cft2 = p.create_contentfilteredtopic("F_filtered2", &t, expr.clone(), params2).await?;
+                        v.push(self.parts[part].subscriber.create_datareader::<FilterData>(&cft2, QosKind::Specific(qos), NO_LISTENER, NO_STATUS).await?);
+                    }
+                    Ok(v)
                 }.await;
-                core.log(json!({"ev": "CftReaders", "res": res_name(&r), "expr": expr, "params": params, "field": st["field"], "op": st["op"]}));
+                core.log(json!({"ev": "CftReaders", "res": res_name(&r), "expr": expr, "params": params, "params2": st["params2"], "field": st["field"], "op": st["op"]}));
                 self.fr = r.unwrap_or_default();
             }
             "write_f" => {
@@ -863,7 +870,8 @@ impl World {
                 core.log(json!({"ev": "WriteF", "seq": d.seq, "id": d.id, "val": d.val, "name": d.name, "res": res_name(&res)}));
             }
             "take_f" => {
-                for (k, which) in ["filtered", "control"].iter().enumerate() {
+                // (the control reader is taken last: the final completeness rule is evaluated at its take)
+                for (k, which) in [(0usize, "filtered"), (2, "filtered2"), (1, "control")] {
                     if let Some(r) = self.fr.get(k) {
                         let res = r.take(i32::MAX, ANY_SAMPLE_STATE, ANY_VIEW_STATE, ANY_INSTANCE_STATE).await;
                         let samples: Vec<Value> = res.as_ref().map(|l| l.iter().filter_map(|s| s.data.as_ref())
